@@ -86,6 +86,14 @@ def to_scenario(hist, K, name):
                 steps.append({"e": "poll"})
             susp = False
             expect.append(h)
+        elif a == "q0zero":
+            if susp:
+                steps.append({"e": "cancel"})
+                expect.append({"a": "cancel"})
+            serial += 1
+            steps += [{"e": "publish", "qos": 0, "topic": replay.b("q/%d" % serial), "payload": replay.b("x")}, {"e": "wzero"}]
+            susp = False
+            expect.append(h)
         elif a == "stall":
             # the PINGREQ is due, the transport does not take it, the application drops the poll
             if not susp:
@@ -141,7 +149,7 @@ def compare(expect, lines):
         if e["e"] != "ret":
             out.append("line %d: expected a return after %s, got %s" % (ln, h["a"], e["e"]))
             break
-        want_err = h["a"] == "timeout"
+        want_err = h["a"] in ("timeout", "q0zero")
         if (e["r"]["k"] == "err") != want_err:
             out.append("line %d (%s): result %s:%s" % (ln, h["a"], e["r"]["k"], e["r"]["v"]))
         snap = e["snap"]
